@@ -94,6 +94,7 @@ type Interp struct {
 	NFinished  int
 	KeepFinished bool // keep the final states (needed only for postconditions)
 	InitNotes  map[string]string
+	Hostile    bool // decoder analysis: symbols are attacker-chosen
 	allocLimit func(n int64, in ssa.Instruction, s *State) string // optional: judge allocation sizes
 	inputLen   int
 }
